@@ -159,8 +159,14 @@ def dec(v):
 
 
 def make_table(t):
-    names = ID_NAMES[t.get("id_type", "str")]
+    id_type = t.get("id_type", "str")
+    names = ID_NAMES["str" if id_type.startswith("cat") else id_type]
     ids = [names[i] if isinstance(i, int) and not isinstance(i, bool) else i for i in t["ids"]]
+    if id_type.startswith("cat"):
+        # identifiers held as a pandas categorical (a cohort table filtered to a subset keeps the categories it no longer uses)
+        used = list(dict.fromkeys(ids))
+        cats = used + (["zz-not-in-the-table", "aa-not-in-the-table"] if id_type == "cat_unused" else [])
+        ids = pd.Categorical(ids, categories=cats)
     times = [dec(x) for x in t["times"]]
     cols = t.get("cols", ["ID", "TIME"])
     data = {}
@@ -381,8 +387,12 @@ def execute(case):
         valid, why = False, "model of another kind than logistic"
     seed = case["seed"]
     rec = Recorder()
+    # the harness judges the result against its OWN copy of the request; the objects handed to the implementation are kept
+    # to see what a second use of the very same objects gives
+    vp_given, feats_given = vp, feats
+    vp, feats = copy.deepcopy(vp), copy.deepcopy(feats)
     out = {"model": model, "feats": feats, "vp": vp, "valid": valid, "why": why, "rec": rec, "exc": None, "result": None,
-           "in_run": False}
+           "in_run": False, "vp_given": vp_given, "feats_given": feats_given}
     np.random.seed(987654321)  # a known state that is not the seeded one
     torch.manual_seed(987654321)
     np_before, torch_before = _np_state(), torch.get_rng_state()
@@ -391,7 +401,7 @@ def execute(case):
         with rec.installed():
             try:
                 with time_limit(WALL_LIMIT):
-                    res = model.simulate(algorithm="simulate", seed=seed, features=feats, visit_parameters=vp)
+                    res = model.simulate(algorithm="simulate", seed=seed, features=feats_given, visit_parameters=vp_given)
                 out["kind"], out["result"] = "completed", res
             except (CaseTimeout, DrawBudgetExceeded) as e:
                 out["kind"], out["exc"] = "noterm", e
@@ -504,7 +514,8 @@ def traits(case):
     else:
         t = v["table"]
         if t.get("id_type", "str") != "str":
-            lab = {"int": "integer identifiers in the visit table", "numstr": "numeric-looking string identifiers"}[t["id_type"]]
+            lab = {"int": "integer identifiers in the visit table", "numstr": "numeric-looking string identifiers",
+                   "cat": "categorical identifiers in the visit table", "cat_unused": "categorical identifiers with unused categories"}[t["id_type"]]
             out.append((lab, setter(["visit", "table"], ["id_type"])))
         if t["ids"] != BASE_TABLE["ids"] or t["times"] != BASE_TABLE["times"] or t.get("extra") or t.get("int_times"):
             lab = "single individual" if len(set(map(str, t["ids"]))) == 1 else "visit table rows"
@@ -815,6 +826,24 @@ def run_case(case, acc=None, memo=None):
     if acc is not None and info.get("mu_skipped"):
         acc.count("mu_oracle_skipped")
     dk = design_kind(case)
+    # the very same request objects used a second time (a loop over seeds / models): the design is as valid as before,
+    # so it still runs to completion - and, same seed and same model parameters, it gives the same table
+    if not problems:
+        try:
+            with warnings.catch_warnings(), contextlib.redirect_stdout(io.StringIO()):
+                warnings.simplefilter("ignore")
+                with time_limit(WALL_LIMIT):
+                    res2 = get_model(case["model"]).simulate(algorithm="simulate", seed=case["seed"], features=ex["feats_given"],
+                                                             visit_parameters=ex["vp_given"])
+            if acc is not None:
+                acc.evaluation()
+            d1, d2 = ex["result"].data.to_dataframe(), res2.data.to_dataframe()
+            if not (list(d1.columns) == list(d2.columns) and d1.shape == d2.shape and d1.astype(str).equals(d2.astype(str))):
+                problems.append(("second run with the same request objects and seed gives another table", "first vs second", d1.head(6).to_dict("list"),
+                                 d2.head(6).to_dict("list")))
+        except Exception as e2:  # noqa: BLE001
+            problems.append((f"valid design raises {type(e2).__name__} when the same request objects are used a second time", str(e2)[:300],
+                             "runs to completion", type(e2).__name__))
     for mismatch, msg, exp, obs in problems:
         feature = dk
         if mismatch.startswith("column of a requested feature"):
@@ -985,7 +1014,7 @@ def _tier_plan(tier):
             plan.append(("random-small", M(dim=3, ns=2), f, small, "first"))
         tabs = [table_visit(t, it) for it in id_types for t in enumerated_tables(3)]
         plan.append(("tables-enumerated", base, "all", tabs, "all"))
-        hand = [table_visit(t, it) for it in id_types for t in HAND_TABLES if not (isinstance(t["ids"][0], str) and it != "str")]
+        hand = [table_visit(t, it) for it in id_types + ["cat", "cat_unused"] for t in HAND_TABLES if not (isinstance(t["ids"][0], str) and it not in ("str", "cat", "cat_unused"))]
         for m in MODELS_ALL:
             plan.append(("tables-hand", m, "all", hand, "first"))
         for f in ("reordered", "subset"):
@@ -1001,7 +1030,7 @@ def _tier_plan(tier):
         plan.append(("tables-enumerated", base, "all", tabs4, "all"))
         for m in (M(noise=SC, src="fitted"), M(dim=3, ns=2), M(src="fitted", dim=3, ns=2)):
             plan.append(("tables-enumerated", m, "all", tabs3, "first"))
-        hand = [table_visit(t, it) for it in id_types for t in HAND_TABLES if not (isinstance(t["ids"][0], str) and it != "str")]
+        hand = [table_visit(t, it) for it in id_types + ["cat", "cat_unused"] for t in HAND_TABLES if not (isinstance(t["ids"][0], str) and it not in ("str", "cat", "cat_unused"))]
         for m in MODELS_ALL:
             for f in ("all", "reordered", "subset"):
                 if m["dim"] == 1 and f != "all":
